@@ -137,7 +137,24 @@ func VerifC11_routing() {
 	if vfChoice("reg-col-cell", 2) == 1 {
 		vfAssert(t.RegisterPropertyCallback(t.Column(1), CB_AT_ADD, CB_ON_CELL, mk("col1-cell-add")) == nil, "register-ok")
 	}
-	r := NewRow()
+	// the table may already hold an error; the row may come from any of the row constructors
+	d0 := errors.New("table-error-before")
+	if vfChoice("table-error", 2) == 1 {
+		t.AddError(d0)
+		direct++
+		vfTag("table-has-error")
+	}
+	var r *Row
+	rowKind := vfChoice("row-kind", 3)
+	switch rowKind {
+	case 0:
+		r = NewRow()
+	case 1:
+		r = t.NewRowSizedFor()
+		vfTag("row-sized-for-table")
+	case 2:
+		r = NewRowWithCapacity(1)
+	}
 	d1 := errors.New("direct-before-attach")
 	if vfChoice("direct1", 2) == 1 {
 		r.AddError(d1)
@@ -194,9 +211,16 @@ func VerifC11_routing() {
 	for _, e := range raised {
 		vfAssert(pos(e) >= 0, "raised-error-reported-once")
 	}
-	if direct > 0 {
+	if vfChoice("direct1", 2) == 1 {
 		vfAssert(pos(d1) >= 0, "direct-row-error-reported-once")
 	}
+	if vfChoice("table-error", 2) == 1 {
+		vfAssert(pos(d0) >= 0, "earlier-table-error-still-reported-once")
+	}
+	// AppendNewRow afterwards must not disturb the list either
+	before, raisedBefore := len(t.Errors()), len(raised)
+	t.AppendNewRow()
+	vfAssert(len(t.Errors()) == before+len(raised)-raisedBefore, "append-new-row-adds-only-newly-raised-errors")
 	for _, cb := range cbs {
 		for i := 1; i < len(cb.mine); i++ {
 			vfAssert(pos(cb.mine[i-1]) < pos(cb.mine[i]), "same-source-order-kept")
